@@ -9,7 +9,7 @@ from pandapipes.pf.internals_toolbox import _sum_by_group
 from pandapipes.constants import P_CONVERSION, GRAVITATION_CONSTANT, NORMAL_PRESSURE, \
     NORMAL_TEMPERATURE
 from pandapipes.idx_branch import LENGTH, LAMBDA, D, LOSS_COEFFICIENT as LC, PL, AREA, \
-    MDOTINIT, TOUTINIT, FROM_NODE, TEXT, ALPHA, TL, QEXT, DO, DP_FRICT_LOSS
+    MDOTINIT, TOUTINIT, FROM_NODE, TO_NODE, FROM_NODE_T_SWITCHED, TEXT, ALPHA, TL, QEXT, DO, DP_FRICT_LOSS
 from pandapipes.idx_node import HEIGHT, PINIT, PAMB, TINIT as TINIT_NODE
 
 logger = logging.getLogger(__name__)
@@ -55,8 +55,10 @@ def derivatives_hydraulic_comp_np(node_pit, branch_pit, lambda_, der_lambda, p_i
     p_diff = p_init_i_abs - p_init_i1_abs
     p_sum = p_init_i_abs + p_init_i1_abs
     p_sum_div = np.divide(1, p_sum)
-    from_nodes = branch_pit[:, FROM_NODE].astype(np.int32)
-    tm = (node_pit[from_nodes, TINIT_NODE] + branch_pit[:, TOUTINIT]) / 2
+    # mean of inlet and outlet temperature (the inlet is the to-node if the fluid flows against the declared direction)
+    inlet_nodes = np.where(branch_pit[:, FROM_NODE_T_SWITCHED].astype(bool), branch_pit[:, TO_NODE],
+                           branch_pit[:, FROM_NODE]).astype(np.int32)
+    tm = (node_pit[inlet_nodes, TINIT_NODE] + branch_pit[:, TOUTINIT]) / 2
     const_height = rho * GRAVITATION_CONSTANT * height_difference / P_CONVERSION
     friction_term = np.divide(lambda_ * branch_pit[:, LENGTH], branch_pit[:, D]) + branch_pit[:, LC]
     normal_term = np.divide(NORMAL_PRESSURE, NORMAL_TEMPERATURE * P_CONVERSION * rho_n * branch_pit[:, AREA] ** 2)
